@@ -1,5 +1,5 @@
 #!/bin/bash
 # setup_cmd: offline build of the harness and of the adlt binary from /repo's working tree
-cd /verif || exit 1
+cd "$(dirname "${BASH_SOURCE[0]}")" || exit 1
 export CARGO_NET_OFFLINE=true
 exec ./check build
